@@ -173,6 +173,7 @@ def check(ctx: Ctx, pid: str) -> None:
         impl.append(r)
     if pid == "C08":
         default_qos_budget(ctx)
+    qos_override_rule(ctx)
     for s, (tr, st, qs, info) in zip(scns, impl):
         nontriv = any(e[0] == 1 for e in tr)
         ctx.case(("scn", repr(s["events"]), repr(s["cmds"]), repr(s["plan"]), s["lifo"], s["mode"]), nontriv,
@@ -230,6 +231,55 @@ def check(ctx: Ctx, pid: str) -> None:
             ctx.extra["first_trace_mismatch"] = first
     else:
         ctx.obligation("correspondence:send-machinery-traces", False, "correspondence", "model not built")
+
+
+def qos_override_rule(ctx: Ctx) -> None:
+    """The harness prepares the model's inputs with its own reading of PortProtocol._send_cmd's QoS override (qos.effective_wfr: which commands keep
+    wait_for_reply under disable_qos True / None / False).  That reading is checked against the real override on every run: the wait_for_reply that
+    reaches the state machine, for every mode, every command kind of the scenarios and the other QoS codes in every verb."""
+    import asyncio  # noqa: PLC0415
+
+    from ramses_tx.command import Command  # noqa: PLC0415
+    from ramses_tx.protocol import PortProtocol  # noqa: PLC0415
+    from ramses_tx.typing import QosParams  # noqa: PLC0415
+
+    frag = "7881EB".ljust(40, "0")
+    cmds = [qos.build_cmd({"kind": k, "idx": 1}) for k in ("rq30c9", "rq0006", "w2309", "i30c9", "rq0418")]
+    cmds += [Command.set_schedule_fragment(qos.CTL, "03", 1, 3, frag), Command.get_schedule_fragment(qos.CTL, "03", 1, 0),
+             Command.from_attrs(" I", qos.CTL, "0418", "000000B0000000000000000000007FFFFF7000000000"),
+             Command.put_bind(" W", "01:145038", "2309", "34:123456", idx="00"), Command.put_bind(" I", "34:123456", ("2309", "30C9"), None),
+             Command.get_zone_name(qos.CTL, "01")]
+    bad = []
+
+    async def main():
+        for mode in (True, None, False):
+            pp = PortProtocol(lambda m: None, disable_qos=mode)
+            seen = []
+
+            async def capture(send_fnc, cmd, priority, q):
+                seen.append(q.wait_for_reply)
+                return None
+
+            pp._context.send_cmd = capture
+            for cmd in cmds:
+                for wfr in (None, False, True):
+                    seen.clear()
+                    await pp._send_cmd(cmd, qos=QosParams(wait_for_reply=wfr))
+                    want = qos.effective_wfr(mode, cmd.code, wfr)
+                    if not seen or bool(seen[0]) != want:
+                        bad.append(f"disable_qos={mode}, {cmd.verb}|{cmd.code}, wait_for_reply={wfr}: the state machine is handed {seen[0] if seen else 'nothing'}, the harness assumes {want}")
+
+    loop = asyncio.new_event_loop()
+    asyncio.set_event_loop(loop)
+    try:
+        loop.run_until_complete(main())
+    except Exception as err:  # noqa: BLE001
+        bad.append(f"{type(err).__name__}: {err}"[:200])
+    finally:
+        asyncio.set_event_loop(None)
+        loop.close()
+    ctx.obligation("harness:qos-override-rule", not bad, "correspondence", f"{len(bad)} differ; first: {bad[0]}" if bad else
+                   f"{3 * len(cmds) * 3} combinations of mode, command and wait_for_reply: the override applied by PortProtocol._send_cmd is the one the model's inputs are prepared with")
 
 
 def default_qos_budget(ctx: Ctx) -> None:
